@@ -95,6 +95,7 @@ type c5node struct {
 	rec  *bytes.Buffer // failing device: what it was handed
 	// hook bookkeeping: message -> calls
 	hookCalls map[string]int
+	nHooks    int // hook functions registered by this node (each fires once per accepted entry)
 	// lazy-with nodes: how often their deferred fields were marshaled
 	lazyMarsh int
 	underLazy bool // some ancestor is a lazy-with node (whose first use derives, and thereby evaluates, this one)
@@ -356,7 +357,14 @@ func (w *c5world) build(n *c5node, frag int) zapcore.Core {
 			hookErr = fmt.Errorf("hook of node %d reports a failure", n.id)
 			c.Fault("failing-hook")
 		}
-		n.core = zapcore.RegisterHooks(child, func(e zapcore.Entry) error { nn.hookCalls[e.Message]++; return hookErr })
+		// one to three hooks registered in one call; a failing one comes first:
+		// the ones after it fire all the same
+		nn.nHooks = 1 + n.id%3
+		hooks := []func(zapcore.Entry) error{func(e zapcore.Entry) error { nn.hookCalls[e.Message]++; return hookErr }}
+		for len(hooks) < nn.nHooks {
+			hooks = append(hooks, func(e zapcore.Entry) error { nn.hookCalls[e.Message]++; return nil })
+		}
+		n.core = zapcore.RegisterHooks(child, hooks...)
 	case c5Sampler:
 		child := w.build(n.kids[0], frag)
 		n.core = zapcore.NewSamplerWithOptions(child, time.Second, 1<<30, 0, zapcore.SamplerHook(func(e zapcore.Entry, d zapcore.SamplingDecision) {
@@ -473,7 +481,7 @@ func runC05(c *Ctx) {
 	errOut := zsim.NewSimSink(c.R, "errout", 1, 9)
 	opts = append(opts, zap.ErrorOutput(zapcore.Lock(errOut)))
 	if g.Chance(4) {
-		hn := &c5node{id: len(w.nodes), kind: c5Hooks, kids: []*c5node{root}, hookCalls: map[string]int{}}
+		hn := &c5node{id: len(w.nodes), kind: c5Hooks, kids: []*c5node{root}, hookCalls: map[string]int{}, nHooks: 1}
 		w.nodes = append(w.nodes, hn)
 		w.hooks = append(w.hooks, hn)
 		opts = append(opts, zap.Hooks(func(e zapcore.Entry) error { hn.hookCalls[e.Message]++; return nil }))
@@ -809,18 +817,18 @@ func runC05(c *Ctx) {
 		for _, h := range w.hooks {
 			n := h.hookCalls[op.msg]
 			switch {
-			case n > 1:
-				c.Fail("C05: a hook fired more than once for one entry", "%s: hook node %d fired %d times", op.msg, h.id, n)
+			case n > h.nHooks:
+				c.Fail("C05: a hook fired more than once for one entry", "%s: the %d hooks of node %d fired %d times", op.msg, h.nHooks, h.id, n)
 				return false
-			case n == 1 && !hookMay[h.id]:
+			case n >= 1 && !hookMay[h.id]:
 				sig := "C05: a hook fired for an entry its wrapped core did not accept"
 				if c.known(sig) {
 					continue
 				}
 				c.Fail(sig, "%s level %d: hook node %d fired although nothing below it received the entry; atomics %v; tree %s", op.msg, l, h.id, vals, w.describe(root))
 				return false
-			case n == 0 && hookMust[h.id]:
-				c.Fail("C05: a hook did not fire for an entry its wrapped core accepted", "%s level %d: hook node %d; tree %s", op.msg, l, h.id, w.describe(root))
+			case n < h.nHooks && hookMust[h.id]:
+				c.Fail("C05: a hook did not fire for an entry its wrapped core accepted", "%s level %d: the %d hooks of node %d fired %d times; tree %s", op.msg, l, h.nHooks, h.id, n, w.describe(root))
 				return false
 			}
 		}
